@@ -59,3 +59,168 @@ Fixpoint run_cut {A} (k : nat) (t : fs B) (p : prog B A) {struct p} : fs B :=
   end.
 
 End FAULTS.
+
+(* ====================================================================== *)
+(* ShardedFileAccessor.close() as a program over the primitives (C18).
+
+   sharded_file_accessor.py: ShardedFileAccessor.close -> every ShardedScale in
+   insertion order -> every Shard in insertion order -> Shard.close; the first
+   exception aborts the whole close.  Shard.close of a dirty shard:
+       self.file_path.parent.mkdir(exist_ok=True, parents=True)
+       with open(self.file_path, "wb") as fp:
+           fp.write(zero header)
+           for minishard in key order:  minishard.close(); fp.write(its data);
+                                        del minishard.databytearray
+           for minishard in key order:  fp.write(its encoded index)
+           fp.seek(0); fp.write(shard index)
+       self.dirty = False
+   and of a clean shard: nothing.  A minishard whose buffer was deleted by an
+   earlier, failed close raises AttributeError when its data is iterated.
+
+   The payload is abstract (the byte strings are the shard writer's business,
+   Shard/ShardFile.v, ShardSession.v; the harness hands in what the real
+   writer produces): per shard the zero header, the data of each minishard in
+   key order, their encoded indices, the final shard index.  The writer state
+   that matters here is, per shard, the dirty flag and the number of
+   minishards (a prefix in key order) whose buffer has been deleted - in
+   ShardSession.v this is [sh_dirty] and the [ws_dead] pairs of that shard.
+   Every write is one primitive call; the file content after a write is given
+   cumulatively.
+   Scope: the data of a minishard is ONE write.  That is always so with the
+   in-memory buffers (InMemByteArray yields itself once) and with the on-disk
+   buffers while a minishard holds at most 4096 bytes (OnDiskByteArray yields
+   4096-byte reads); a larger on-disk minishard is several writes and its
+   buffer is deleted after the last of them - not modelled, the harness
+   reports a write sequence that is not of this shape. *)
+From NGS Require Import Val.
+
+Inductive cres := COk | CIOErr | CAttrErr.      (* close returned / OSError / AttributeError *)
+
+Record shard_desc := {
+  sd_dir : path;                 (* <base>/<scale key> *)
+  sd_file : path;                (* <base>/<scale key>/<shard>.shard *)
+  sd_zero : list N;
+  sd_data : list (list N);       (* per minishard, key order *)
+  sd_idx : list (list N);        (* per minishard, key order *)
+  sd_hdr : list N                (* the shard index written last, over the zero header *)
+}.
+Record shst := { sh_dirty : bool; sh_dead : nat }.
+
+Definition sd_n (d : shard_desc) : nat := length (sd_data d).
+(* file content after the zero header and the first i data blocks *)
+Definition cum_data (d : shard_desc) (i : nat) : list N := sd_zero d ++ concat (firstn i (sd_data d)).
+(* ... after all data and the first j indices *)
+Definition cum_idx (d : shard_desc) (j : nat) : list N :=
+  sd_zero d ++ concat (sd_data d) ++ concat (firstn j (sd_idx d)).
+Definition complete (d : shard_desc) : list N := sd_hdr d ++ concat (sd_data d) ++ concat (sd_idx d).
+
+Section CLOSE.
+Variable B : Type.
+Variable plain : list N -> B.
+Notation prog := (prog B).
+
+(* the exception leaves the with-block: fp.close(), then it propagates (an
+   OSError raised by that close replaces it) *)
+Definition leave (f : path) (r : cres) (st : shst) : prog (cres * shst) :=
+  Do (CClose f) (fun rp => match rp with RErr _ => Ret (CIOErr, st) | _ => Ret (r, st) end).
+
+(* index writes j, j+1, ... (fuel = number left), then the shard index, then close *)
+Fixpoint idx_writes (d : shard_desc) (j fuel : nat) : prog (cres * shst) :=
+  let dead := {| sh_dirty := true; sh_dead := sd_n d |} in
+  match fuel with
+  | O =>
+      Do (CWrite (sd_file d) (plain (complete d))) (fun r =>
+      match r with
+      | RErr _ => leave (sd_file d) CIOErr dead
+      | _ => Do (CClose (sd_file d)) (fun r =>
+             match r with
+             | RErr _ => Ret (CIOErr, dead)
+             | _ => Ret (COk, {| sh_dirty := false; sh_dead := sd_n d |})
+             end)
+      end)
+  | S f =>
+      Do (CWrite (sd_file d) (plain (cum_idx d (S j)))) (fun r =>
+      match r with
+      | RErr _ => leave (sd_file d) CIOErr dead
+      | _ => idx_writes d (S j) f
+      end)
+  end.
+
+(* data writes i, i+1, ...; the buffer of minishard i is deleted after its write *)
+Fixpoint data_writes (d : shard_desc) (i fuel : nat) : prog (cres * shst) :=
+  match fuel with
+  | O => idx_writes d 0 (length (sd_idx d))
+  | S f =>
+      Do (CWrite (sd_file d) (plain (cum_data d (S i)))) (fun r =>
+      match r with
+      | RErr _ => leave (sd_file d) CIOErr {| sh_dirty := true; sh_dead := i |}
+      | _ => data_writes d (S i) f
+      end)
+  end.
+
+(* Shard.close *)
+Definition shard_close_prog (d : shard_desc) (st : shst) : prog (cres * shst) :=
+  if negb (sh_dirty st) then Ret (COk, st) else
+  Do (CMakedirs (sd_dir d)) (fun r =>
+  match r with
+  | RErr _ => Ret (CIOErr, st)
+  | _ =>
+    Do (COpen (sd_file d) MW) (fun r =>
+    match r with
+    | RErr _ => Ret (CIOErr, st)
+    | _ =>
+      Do (CWrite (sd_file d) (plain (sd_zero d))) (fun r =>
+      match r with
+      | RErr _ => leave (sd_file d) CIOErr st
+      | _ =>
+          match sh_dead st with
+          | O => data_writes d 0 (sd_n d)
+          | S _ => leave (sd_file d) CAttrErr st       (* iterating a deleted databytearray *)
+          end
+      end)
+    end)
+  end).
+
+Fixpoint pbindp {A C} (p : prog A) (f : A -> prog C) : prog C :=
+  match p with
+  | Ret a => f a
+  | Do c k => Do c (fun r => pbindp (k r) f)
+  end.
+
+(* ShardedScale.close / ShardedFileAccessor.close: all shards in insertion
+   order, the first exception aborts; [done] = states of the shards already
+   handled, reversed *)
+Fixpoint close_shards (l : list (shard_desc * shst)) (done : list shst) : prog (cres * list shst) :=
+  match l with
+  | [] => Ret (COk, rev done)
+  | (d, st) :: r =>
+      pbindp (shard_close_prog d st) (fun x =>
+        match fst x with
+        | COk => close_shards r (snd x :: done)
+        | e => Ret (e, rev done ++ snd x :: map snd r)
+        end)
+  end.
+
+Definition close_prog (l : list (shard_desc * shst)) : prog (cres * list shst) := close_shards l [].
+
+(* close(), then close() again on the state the first one left *)
+Definition retry_descs (l : list (shard_desc * shst)) (sts : list shst) : list (shard_desc * shst) :=
+  combine (map fst l) sts.
+
+End CLOSE.
+
+(* what a failing write of the close leaves in the file: the content before
+   that write (the writes are sequential; only the last one seeks back) *)
+Fixpoint prev_table_data (d : shard_desc) (i fuel : nat) : list (list N * list N) :=
+  match fuel with
+  | O => []
+  | S f => (cum_data d (S i), cum_data d i) :: prev_table_data d (S i) f
+  end.
+Fixpoint prev_table_idx (d : shard_desc) (j fuel : nat) : list (list N * list N) :=
+  match fuel with
+  | O => []
+  | S f => (cum_idx d (S j), cum_idx d j) :: prev_table_idx d (S j) f
+  end.
+Definition prev_table (d : shard_desc) : list (list N * list N) :=
+  (sd_zero d, []) :: prev_table_data d 0 (sd_n d) ++ prev_table_idx d 0 (length (sd_idx d))
+  ++ [(complete d, cum_idx d (length (sd_idx d)))].
